@@ -5,6 +5,8 @@
 //!     ranges: `none` = `hash_range: None`, `-` = `Some(vec![])`, entries `start:length:offset`
 //!     with `-` for "no bmff offset"; decimal u64.
 //!     cancel=k: the progress callback returns Err(OperationCancelled) at its k-th call.
+//!     optional `env=nospawn`: the run happens in a process in which every
+//!     `std::thread::Builder::spawn` fails (RUST_MIN_STACK larger than the address space).
 //! Reply:
 //!   ok sel=<hex of the bytes fed to the hasher> prog=<progress>
 //!   err <class> prog=<progress>
@@ -26,7 +28,104 @@ use sha2::{Digest, Sha256, Sha384, Sha512};
 use vh::common::{guarded, hex, main_with, Rng, Run};
 
 fn main() {
+    if std::env::args().nth(1).as_deref() == Some("nospawn-child") {
+        nospawn_child();
+        return;
+    }
     main_with("C13", run);
+}
+
+fn prog_raw(p: &[(u32, u32)]) -> String {
+    if p.is_empty() {
+        "-".to_string()
+    } else {
+        p.iter().map(|(s, t)| format!("{s}/{t}")).collect::<Vec<_>>().join(",")
+    }
+}
+
+fn parse_prog_raw(s: &str) -> Vec<(u32, u32)> {
+    if s == "-" {
+        return vec![];
+    }
+    s.split(',')
+        .map(|e| {
+            let (a, b) = e.split_once('/').expect("s/t");
+            (a.parse().expect("step"), b.parse().expect("total"))
+        })
+        .collect()
+}
+
+/// Child process started with RUST_MIN_STACK larger than the address space, so that every
+/// `std::thread::Builder::spawn` (which takes its default stack size from that variable)
+/// fails in `pthread_create`. Reads request lines on stdin, runs the real code on each and
+/// prints `ok <digest> <prog>` | `err <class> <prog>` | `panic`.
+fn nospawn_child() {
+    use std::io::BufRead;
+    std::panic::set_hook(Box::new(|_| {}));
+    let spawn_fails = std::thread::Builder::new().spawn(|| {}).is_err();
+    println!("selftest spawn_fails={spawn_fails}");
+    for line in std::io::stdin().lock().lines() {
+        let line = line.expect("stdin");
+        let c = Case::parse(&line).expect("request line");
+        let (out, prog) = run_impl(&c, c.buf);
+        match out {
+            ImplOut::Ok(d) => println!("ok {} {}", hex(&d), prog_raw(&prog)),
+            ImplOut::Err(cl) => println!("err {cl} {}", prog_raw(&prog)),
+            ImplOut::Panic(_) => println!("panic"),
+        }
+    }
+}
+
+fn static_class(cl: &str) -> &'static str {
+    match cl {
+        "unsupported" => "unsupported",
+        "nodata" => "nodata",
+        "badparam" => "badparam",
+        "io" => "io",
+        "cancelled" => "cancelled",
+        "thread" => "thread",
+        _ => "other",
+    }
+}
+
+/// Run `cases` in the no-spawn child and judge each result.
+fn nospawn_batch(run: &mut Run, cases: &[Case]) {
+    use std::process::{Command, Stdio};
+    let dir = vh::common::scratch("c13-nospawn");
+    let input = dir.join("reqs.txt");
+    let text: String = cases.iter().map(|c| c.req() + "\n").collect();
+    std::fs::write(&input, text).expect("write requests");
+    let exe = std::env::current_exe().expect("current_exe");
+    let outp = Command::new(exe)
+        .arg("nospawn-child")
+        .env("RUST_MIN_STACK", (1u64 << 50).to_string())
+        .stdin(Stdio::from(std::fs::File::open(&input).expect("open requests")))
+        .stderr(Stdio::null())
+        .output()
+        .expect("start child");
+    let _ = std::fs::remove_dir_all(&dir);
+    let stdout = String::from_utf8_lossy(&outp.stdout).to_string();
+    let mut lines = stdout.lines();
+    let selftest = lines.next().unwrap_or("");
+    run.obligations.insert(
+        "env:nospawn-child-cannot-create-threads".to_string(),
+        selftest == "selftest spawn_fails=true",
+    );
+    let replies: Vec<&str> = lines.collect();
+    // the child must survive every case (a failed spawn must not abort the process)
+    run.obligations.insert(
+        "env:nospawn-child-completed-all-cases".to_string(),
+        outp.status.success() && replies.len() == cases.len(),
+    );
+    for (c, r) in cases.iter().zip(replies.iter()) {
+        let f: Vec<&str> = r.split(' ').collect();
+        let (out, prog) = match f[0] {
+            "ok" => (ImplOut::Ok(vh::common::unhex(f[1])), parse_prog_raw(f[2])),
+            "err" => (ImplOut::Err(static_class(f[1])), parse_prog_raw(f[2])),
+            _ => (ImplOut::Panic("panic in the no-spawn child".to_string()), vec![]),
+        };
+        judge(run, c, out, prog, Mode::NoSpawn);
+    }
 }
 
 #[derive(Clone, Debug, PartialEq, Eq, PartialOrd, Ord)]
@@ -44,6 +143,8 @@ struct Case {
     cancel: Option<u32>,
     ranges: Option<Vec<Ent>>,
     data: Vec<u8>,
+    /// run in the child process in which thread creation fails
+    nospawn: bool,
 }
 
 impl Case {
@@ -65,14 +166,52 @@ impl Case {
                 .join(","),
         };
         format!(
-            "C13 hash mode={} alg={} buf={} cancel={} ranges={} data={}",
+            "C13 hash mode={} alg={} buf={} cancel={} ranges={} data={}{}",
             if self.excl { "excl" } else { "incl" },
             self.alg,
             self.buf,
             self.cancel.map(|k| k.to_string()).unwrap_or_else(|| "-".to_string()),
             ranges,
-            hex(&self.data)
+            hex(&self.data),
+            if self.nospawn { " env=nospawn" } else { "" }
         )
+    }
+
+    /// inverse of `req` (used by the no-spawn child process)
+    fn parse(line: &str) -> Option<Case> {
+        let toks: Vec<&str> = line.split(' ').collect();
+        let get = |k: &str| -> Option<&str> {
+            let pre = format!("{k}=");
+            toks.iter().find_map(|t| t.strip_prefix(pre.as_str()))
+        };
+        let ranges = match get("ranges")? {
+            "none" => None,
+            "-" => Some(vec![]),
+            r => Some(
+                r.split(',')
+                    .map(|e| {
+                        let f: Vec<&str> = e.split(':').collect();
+                        Ent {
+                            start: f[0].parse().unwrap(),
+                            len: f[1].parse().unwrap(),
+                            off: if f[2] == "-" { None } else { Some(f[2].parse().unwrap()) },
+                        }
+                    })
+                    .collect(),
+            ),
+        };
+        Some(Case {
+            excl: get("mode")? == "excl",
+            alg: get("alg")?.to_string(),
+            buf: get("buf")?.parse().ok()?,
+            cancel: match get("cancel")? {
+                "-" => None,
+                k => Some(k.parse().ok()?),
+            },
+            ranges,
+            data: vh::common::unhex(get("data")?),
+            nospawn: get("env") == Some("nospawn"),
+        })
     }
 
     fn hash_ranges(&self) -> Option<Vec<HashRange>> {
@@ -108,8 +247,92 @@ enum ImplOut {
     Panic(String),
 }
 
+/// How the stream perturbs the thread schedule of the read-ahead pipeline.
+#[derive(Clone, Copy, Debug, PartialEq)]
+enum Sched {
+    /// plain `Cursor`
+    Plain,
+    /// every `read` first sleeps this many microseconds: the worker thread finishes hashing
+    /// chunk i (and has sent the hasher back) before the main thread has read chunk i+1
+    SlowRead(u64),
+    /// every `read` first yields the time slice a few times
+    YieldRead(u32),
+}
+
+/// `Cursor` whose `read` is delayed (schedule perturbation at the `Read` boundary).
+struct SchedCursor {
+    inner: Cursor<Vec<u8>>,
+    sched: Sched,
+    reads: usize,
+}
+
+impl std::io::Read for SchedCursor {
+    fn read(&mut self, buf: &mut [u8]) -> std::io::Result<usize> {
+        self.reads += 1;
+        match self.sched {
+            Sched::Plain => {}
+            Sched::SlowRead(us) => std::thread::sleep(std::time::Duration::from_micros(us)),
+            Sched::YieldRead(k) => {
+                for _ in 0..k {
+                    std::thread::yield_now();
+                }
+            }
+        }
+        self.inner.read(buf)
+    }
+}
+
+impl std::io::Seek for SchedCursor {
+    fn seek(&mut self, pos: std::io::SeekFrom) -> std::io::Result<u64> {
+        self.inner.seek(pos)
+    }
+}
+
 /// Run the real code (hook = private impl with caller-chosen max_hash_buf).
 fn run_impl(c: &Case, buf: usize) -> (ImplOut, Vec<(u32, u32)>) {
+    run_impl_sched(c, buf, Sched::Plain)
+}
+
+fn run_impl_sched(c: &Case, buf: usize, sched: Sched) -> (ImplOut, Vec<(u32, u32)>) {
+    if sched == Sched::Plain {
+        return run_impl_plain(c, buf);
+    }
+    let data = c.data.clone();
+    let hr = c.hash_ranges();
+    let alg = c.alg.clone();
+    let excl = c.excl;
+    let cancel = c.cancel;
+    let r = guarded(move || {
+        let mut seen: Vec<(u32, u32)> = vec![];
+        let mut cur = SchedCursor { inner: Cursor::new(data), sched, reads: 0 };
+        let res = {
+            let mut cb = |s: u32, t: u32| {
+                seen.push((s, t));
+                if Some(seen.len() as u32) == cancel {
+                    Err(Error::OperationCancelled)
+                } else {
+                    Ok(())
+                }
+            };
+            c2pa::verif_hooks::c13::hash_stream_with_buf(
+                &alg,
+                &mut cur,
+                hr,
+                excl,
+                &mut cb,
+                NonZeroUsize::new(buf).expect("buf >= 1"),
+            )
+        };
+        (res.map_err(|e| err_class(&e)), seen)
+    });
+    match r {
+        Ok((Ok(d), seen)) => (ImplOut::Ok(d), seen),
+        Ok((Err(cl), seen)) => (ImplOut::Err(cl), seen),
+        Err(msg) => (ImplOut::Panic(msg), vec![]),
+    }
+}
+
+fn run_impl_plain(c: &Case, buf: usize) -> (ImplOut, Vec<(u32, u32)>) {
     let data = c.data.clone();
     let hr = c.hash_ranges();
     let alg = c.alg.clone();
@@ -192,8 +415,14 @@ struct Spec {
     /// an entry the statement does not speak about reaches past the end (empty range,
     /// marker entry of an exclusion list): either outcome accepted
     may_reject: bool,
-    /// selected bytes (positions beyond the data are simply absent)
+    /// selected bytes (positions beyond the data are simply absent); every marker offset
+    /// inside the stream contributes at its position (the statement's unconditional reading)
     bytes: Vec<u8>,
+    /// the same, but a marker on an excluded position contributes only strictly between the
+    /// first and the last hashed byte (the rule the code implements)
+    span_bytes: Vec<u8>,
+    /// some marker sits on an excluded position outside the hashed span (the two differ)
+    marker_outside_span: bool,
     /// a one-byte piece of an included run starts at a marker offset, i.e. a marker sits on
     /// the last byte of an included run (F2 input kind)
     one_byte_run_at_marker: bool,
@@ -217,6 +446,8 @@ fn spec(c: &Case) -> Spec {
         nonlast_past_end: false,
         may_reject: false,
         bytes: vec![],
+        span_bytes: vec![],
+        marker_outside_span: false,
         one_byte_run_at_marker: false,
         has_markers: false,
         dup_markers: false,
@@ -255,15 +486,25 @@ fn spec(c: &Case) -> Spec {
                 s.dup_markers = true;
             }
             if cnt > 0 {
-                let copies = if inc[p as usize] {
+                // statement: the marker contributes at its position (duplicates on an excluded
+                // position count once: no caller passes duplicates, the statement is silent)
+                let copies = if inc[p as usize] { cnt } else { 1 };
+                // code: on an excluded position only strictly inside the hashed span
+                let span_copies = if inc[p as usize] {
                     cnt
                 } else if lo < p && p < hi {
                     1
                 } else {
                     0
                 };
+                if span_copies != copies {
+                    s.marker_outside_span = true;
+                }
                 for _ in 0..copies {
                     s.bytes.extend_from_slice(&p.to_be_bytes());
+                }
+                for _ in 0..span_copies {
+                    s.span_bytes.extend_from_slice(&p.to_be_bytes());
                 }
                 // the piece that starts at the marker is one byte long (the marker sits on
                 // the last byte of an included run)
@@ -274,6 +515,7 @@ fn spec(c: &Case) -> Spec {
             }
             if inc[p as usize] {
                 s.bytes.push(c.data[p as usize]);
+                s.span_bytes.push(c.data[p as usize]);
             }
         }
     } else {
@@ -300,6 +542,9 @@ fn spec(c: &Case) -> Spec {
     }
     if c.ranges.as_ref().map(|v| v.is_empty()).unwrap_or(true) {
         s.bytes = c.data.clone();
+    }
+    if !c.excl || !s.marker_outside_span {
+        s.span_bytes = s.bytes.clone();
     }
     s
 }
@@ -387,12 +632,32 @@ fn candidates(c: &Case) -> Vec<(&'static str, Vec<u8>)> {
 
 // ---------------------------------------------------------------------------------------
 
+/// which extra comparisons a case gets
+#[derive(Clone, Copy, PartialEq)]
+enum Mode {
+    /// other chunk sizes + the public entry point
+    Full,
+    /// the result was produced with a schedule-perturbing stream: compare with the plain run
+    Sched(Sched),
+    /// the result was produced in the process in which thread creation fails
+    NoSpawn,
+}
+
 fn one(run: &mut Run, c: &Case) {
-    let req = c.req();
     let (out, prog) = run_impl(c, c.buf);
+    judge(run, c, out, prog, Mode::Full);
+}
+
+fn judge(run: &mut Run, c: &Case, out: ImplOut, prog: Vec<(u32, u32)>, mode: Mode) {
+    let req = c.req();
     let sp = spec(c);
     let alg_ok = digest(&c.alg, b"").is_some();
     let mut fails: Vec<(&'static str, String)> = vec![];
+    // a digest was returned and it is the digest of the empty string
+    let hashed_nothing = match &out {
+        ImplOut::Ok(d) => digest(&c.alg, b"").as_deref() == Some(d.as_slice()),
+        _ => false,
+    };
     let line = match &out {
         ImplOut::Panic(m) => {
             fails.push(("panic", format!("implementation panicked: {m}")));
@@ -403,7 +668,9 @@ fn one(run: &mut Run, c: &Case) {
                 && !c.data.is_empty()
                 && !sp.must_reject
                 && !sp.may_reject
-                && c.cancel.map(|k| k as usize > prog.len()).unwrap_or(true);
+                && c.cancel.map(|k| k as usize > prog.len()).unwrap_or(true)
+                // no worker threads: a range longer than one chunk cannot be hashed
+                && !(mode == Mode::NoSpawn && *cl == "io" && c.buf < c.data.len());
             if expected_ok {
                 fails.push((
                     "spurious-error",
@@ -421,6 +688,16 @@ fn one(run: &mut Run, c: &Case) {
             }
             if digest(&c.alg, &sp.bytes).as_deref() == Some(d.as_slice()) {
                 format!("ok sel={} prog={}", hex(&sp.bytes), prog_str(&prog))
+            } else if sp.marker_outside_span
+                && digest(&c.alg, &sp.span_bytes).as_deref() == Some(d.as_slice())
+            {
+                // everything is as the statement says except that a marker on an excluded
+                // position outside the hashed span was not hashed
+                fails.push((
+                    "marker-outside-span-dropped",
+                    "a BMFF offset marker on an excluded position that is not strictly between the first and the last hashed byte does not contribute its offset".to_string(),
+                ));
+                format!("ok sel={} prog={}", hex(&sp.span_bytes), prog_str(&prog))
             } else {
                 let class = if sp.one_byte_run_at_marker {
                     "one-byte-run-at-marker"
@@ -459,16 +736,45 @@ fn one(run: &mut Run, c: &Case) {
         if !wf || !complete {
             fails.push(("progress-malformed", format!("progress sequence {}", prog_str(&prog))));
         }
-    } else if matches!(out, ImplOut::Ok(_)) && !sp.bytes.is_empty() {
+    } else if matches!(out, ImplOut::Ok(_)) && !hashed_nothing {
         fails.push(("progress-malformed", "no progress call although bytes were hashed".to_string()));
     }
 
     // chunk-size / schedule independence (observed directly): other buffer sizes and the
     // public entry point give the same answer
-    if c.cancel.is_none() {
+    if let Mode::Sched(sched) = mode {
+        let (o2, p2) = run_impl(c, c.buf);
+        if !same(&out, &o2) || prog != p2 {
+            fails.push((
+                "schedule-dependent",
+                format!("the result with the stream perturbation {sched:?} differs from the plain run"),
+            ));
+        }
+        run.count("schedule_perturbed");
+    }
+    if mode == Mode::NoSpawn {
+        // property: a failed thread creation is an error result (or irrelevant), never a
+        // panic or a different digest
+        let (o2, _) = run_impl(c, c.buf);
+        let io = matches!(out, ImplOut::Err("io"));
+        if !(same(&out, &o2) || io) || (c.buf >= c.data.len() && !same(&out, &o2)) {
+            fails.push((
+                "spawn-failure-changes-result",
+                "with thread creation failing the result is neither the ordinary result nor an I/O error".to_string(),
+            ));
+        }
+        run.count(if io { "nospawn_io_error" } else { "nospawn_same_result" });
+    }
+    if mode == Mode::Full && c.cancel.is_none() {
         let n = c.data.len().max(1);
         // (every non-final chunk costs one thread spawn: keep the chunk count small on long streams)
-        let mut alts: Vec<usize> = if n <= 24 { vec![1, n, 2] } else { vec![n.div_ceil(3), n + 1] };
+        let mut alts: Vec<usize> = if n <= 12 {
+            vec![1, n, 2]
+        } else if n <= 24 {
+            vec![n.div_ceil(4), n]
+        } else {
+            vec![n.div_ceil(3), n + 1]
+        };
         alts.retain(|b| *b != c.buf);
         alts.dedup();
         for b in alts {
@@ -566,7 +872,7 @@ fn gen_len(r: &mut Rng, thorough: bool) -> usize {
 
 fn gen_buf(r: &mut Rng, n: usize) -> usize {
     let n = n.max(1);
-    if n > 48 && !r.chance(1, 50) {
+    if n > 24 && !r.chance(1, 50) {
         // at most ~16 chunks (thread spawns) per range on longer streams
         return match r.below(8) {
             0 => n.div_ceil(16),
@@ -741,7 +1047,7 @@ fn gen_case(r: &mut Rng, thorough: bool) -> Case {
     let alg = if alg.is_empty() { "x".to_string() } else { alg };
     let buf = gen_buf(r, n);
     let cancel = if r.chance(1, 20) { Some(r.range(1, 6) as u32) } else { None };
-    Case { excl, alg, buf, cancel, ranges, data }
+    Case { excl, alg, buf, cancel, ranges, data, nospawn: false }
 }
 
 /// Exhaustive small sweep: every stream length ≤ max_len, every list of ≤ 2 ranges with
@@ -792,6 +1098,7 @@ fn exhaustive(run: &mut Run, max_len: usize, two_ranges_up_to: usize) {
                         cancel: None,
                         ranges: Some(v),
                         data: data.clone(),
+                        nospawn: false,
                     };
                     one(run, &c);
                 }
@@ -811,6 +1118,7 @@ fn fixed_cases(run: &mut Run) {
         cancel: None,
         ranges: Some(v.into_iter().map(|(s, l, o)| Ent { start: s, len: l, off: o }).collect()),
         data: data.clone(),
+        nospawn: false,
     };
     // F1
     one(run, &mk(true, vec![(0, 100, None), (5, 1, None)], &d10, 3));
@@ -829,6 +1137,10 @@ fn fixed_cases(run: &mut Run) {
     let mut c = mk(true, vec![], &big, 1024);
     c.ranges = None;
     one(run, &c);
+    // a marker on an excluded position outside the hashed span (Props: marker_outside_span_dropped,
+    // marker_after_span_dropped)
+    one(run, &mk(true, vec![(0, 2, None), (0, 1, Some(0))], &d10, 3));
+    one(run, &mk(true, vec![(8, 2, None), (9, 1, Some(9))], &d10, 4));
     // all bytes excluded, markers inside / at the edges
     one(run, &mk(true, vec![(0, 10, None), (3, 1, Some(3)), (0, 1, Some(0)), (9, 1, Some(9))], &d10, 4));
     // duplicate markers inside a run and inside a gap
@@ -838,17 +1150,133 @@ fn fixed_cases(run: &mut Run) {
 
 pub fn run(run: &mut Run, rng: &mut Rng) {
     run.rule = "non-trivial = the implementation returned a digest and the selected byte string is neither empty nor the whole stream; distinct by (sorted entry list, stream length, mode)".to_string();
+    let t0 = std::time::Instant::now();
+    let mut lap = {
+        let mut last = t0;
+        move |run: &mut Run, what: &str| {
+            let now = std::time::Instant::now();
+            run.notes.push(format!("{what}: {:.1}s", (now - last).as_secs_f64()));
+            last = now;
+        }
+    };
     fixed_cases(run);
     if run.thorough() {
         exhaustive(run, 6, 5);
     } else {
         exhaustive(run, 4, 3);
     }
-    let n = if run.thorough() { 200_000 } else { 25_000 };
+    lap(run, "fixed + exhaustive sweep");
+    let n = if run.thorough() { 200_000 } else { 20_000 };
     let thorough = run.thorough();
     for _ in 0..n {
         let mut r = rng.fork();
         let c = gen_case(&mut r, thorough);
         one(run, &c);
     }
+
+    lap(run, "random cases");
+    // thread pipelining: the same inputs with the schedule of the hand-off perturbed at the
+    // `Read` boundary (slow / yielding reads: the worker finishes first) ...
+    let n_sched = if thorough { 3_000 } else { 300 };
+    for i in 0..n_sched {
+        let mut r = rng.fork();
+        let mut c = gen_case(&mut r, thorough);
+        let len = c.data.len();
+        if len >= 2 {
+            // several chunks per range
+            c.buf = (len / r.range(2, 6) as usize).max(1);
+        }
+        let sched = if i % 2 == 0 {
+            Sched::SlowRead(*r.pick(&[20, 60, 150]))
+        } else {
+            Sched::YieldRead(r.range(1, 20) as u32)
+        };
+        let (out, prog) = run_impl_sched(&c, c.buf, sched);
+        judge(run, &c, out, prog, Mode::Sched(sched));
+    }
+    // ... and long chunks (hashing a chunk takes much longer than reading the next one: the
+    // main thread waits in `recv`)
+    large_chunks(run, rng);
+    lap(run, "schedule perturbation");
+
+    // thread creation fails
+    let n_ns = if thorough { 5_000 } else { 600 };
+    let mut cases: Vec<Case> = vec![];
+    // the model-level examples of Props/C13.lean
+    let d10: Vec<u8> = (0x0a..0x14).collect();
+    for buf in [3usize, 10] {
+        cases.push(Case {
+            excl: true,
+            alg: "sha256".to_string(),
+            buf,
+            cancel: None,
+            ranges: None,
+            data: d10.clone(),
+            nospawn: true,
+        });
+    }
+    for _ in 0..n_ns {
+        let mut r = rng.fork();
+        let mut c = gen_case(&mut r, thorough);
+        c.nospawn = true;
+        cases.push(c);
+    }
+    nospawn_batch(run, &cases);
+    lap(run, "no-spawn child");
+}
+
+/// 2 MiB streams hashed in 256 KiB chunks with sha512, compared with the one-shot digest of
+/// the specification (too long for a model request line: implementation-side obligation).
+fn large_chunks(run: &mut Run, rng: &mut Rng) {
+    let mut ok = true;
+    let n = 2 * 1024 * 1024usize;
+    for k in 0..3u64 {
+        let mut r = rng.fork();
+        let data: Vec<u8> = (0..n).map(|i| (i as u64).wrapping_mul(2654435761 + k).to_le_bytes()[3]).collect();
+        let a = r.range(1, 400_000);
+        let b = r.range(600_000, 1_200_000);
+        let ranges = vec![
+            Ent { start: b, len: r.range(1, 300_000), off: None },
+            Ent { start: a, len: r.range(1, 100_000), off: None },
+            Ent { start: a / 2, len: 1, off: Some(a / 2) },
+            Ent { start: b + 5, len: 1, off: Some(b + 5) },
+        ];
+        let c = Case {
+            excl: k != 2,
+            alg: "sha512".to_string(),
+            buf: 256 * 1024,
+            cancel: None,
+            ranges: Some(if k != 2 { ranges } else { ranges[..2].to_vec() }),
+            data,
+            nospawn: false,
+        };
+        let sp = spec(&c);
+        let (out, prog) = run_impl(&c, c.buf);
+        let (out1, _) = run_impl(&c, n);
+        let good = match (&out, &out1) {
+            (ImplOut::Ok(d), ImplOut::Ok(d1)) => {
+                d == d1
+                    && digest(&c.alg, &sp.bytes).as_deref() == Some(d.as_slice())
+                    && prog.len() >= 2
+                    && prog.len() as u32 == prog[0].1
+            }
+            _ => false,
+        };
+        if !good {
+            run.notes.push(format!(
+                "large_chunks k={k}: out={} prog={} ranges={:?}",
+                match &out {
+                    ImplOut::Ok(d) => format!("ok {}", hex(d)),
+                    ImplOut::Err(c) => format!("err {c}"),
+                    ImplOut::Panic(m) => format!("panic {m}"),
+                },
+                prog_str(&prog),
+                c.ranges
+            ));
+        }
+        ok &= good;
+        run.count("large_chunk_runs");
+    }
+    run.obligations
+        .insert("schedule:large-chunks-digest-equals-one-shot-digest-of-spec".to_string(), ok);
 }
